@@ -622,6 +622,10 @@ class MinMaxAggregator:
             else:
                 rest_cond.append(cond)
         assert oldmax is not None
+        # the result may only be the weight: a condition on it is a condition on the maximum, not on chain links
+        if any(var.name == varname for cond in rest_cond for var in collect_ast(cond, "Variable")):
+            log.info(f"Cannot use chaining in {loc2str(stm.location)} as the result is used in another condition.")
+            return [stm]
 
         # check if all Variables from old predicate are used in the tuple identifier
         # to make a unique semantics
